@@ -89,6 +89,13 @@ def pad_bits(pb, byte_aligned):
 
 
 @spec
+def fits_width(v, k):
+    """the value fits the signed-or-unsigned range of a k-bit field (C12: "fitting the signed-or-unsigned range of
+    its field width")"""
+    return -(2 ** (k - 1)) <= v and v < 2 ** k
+
+
+@spec
 def fits_bytes(value, nb):
     """int.to_bytes(nb, signed=(value<0)) accepts the value"""
     if value < 0:
@@ -124,13 +131,13 @@ lemma('be_acc_is_low_bits', vars={'u': 'int', 'k': 'int'},
       by='bv', cases={'k': range(1, 65)}, ubounds={'u': lambda k: 2 ** (8 * ((k + 7) // 8)) - 1}, props=['C01', 'C12'])
 
 contract(PB + '.__init__', props=['C01', 'C12'],
-         ensures=['pb_ok(self)', 'pb_nbits(self) == 0', 'pb_val(self) == 0'],
+         ensures=['pb_ok(self)', 'pb_nbits(self) == 0', 'pb_val(self) == 0', 'fresh(self._bytes)', 'self._cur_bit_idx == 7'],
          modifies=['self._bytes', 'self._cur_byte_idx', 'self._cur_bit_idx'], allocates=True)
 
 contract(PB + '.get_bytes', props=['C01', 'C12'],
-         ensures=['result == self._bytes'], modifies=[])
+         ensures=['result is self._bytes'], modifies=[])
 
-APPEND_POST = ['pb_ok(self)',
+APPEND_POST = ['pb_ok(self)', 'self._cur_bit_idx <= 6',
                'pb_nbits(self) == old(pb_nbits(self)) + old(pad_bits(self, byte_aligned)) + bit_size',
                'pb_val(self) == old(pb_val(self)) * 2 ** (old(pad_bits(self, byte_aligned)) + bit_size)'
                ' + field_bits(value, bit_size, endian)']
@@ -144,23 +151,24 @@ BLOCKS = {
     'bit': dict(where='loop[0.0].body', locals=BLOCK_LOCALS,
                 requires=['pb_ok(self)', '0 <= bit_idx and bit_idx <= 7',
                           '0 <= byte_idx and byte_idx < len(value_bytes)'],
-                ensures=['pb_ok(self)', 'pb_nbits(self) == old(pb_nbits(self)) + 1',
+                ensures=['pb_ok(self)', 'self._cur_bit_idx <= 6', 'pb_nbits(self) == old(pb_nbits(self)) + 1',
                          f'pb_val(self) == 2 * old(pb_val(self)) + ({VB} // 2 ** bit_idx) % 2',
-                         'self._bytes == old(self._bytes)'],
+                         'self._bytes is old(self._bytes)'],
                 modifies=MOD, lemmas=['bigend_frame']),
     # the inner loop: append the low bit_start+1 bits of the current byte, most significant first
     'byte': dict(where='loop[0.0]', locals=BLOCK_LOCALS,
                  requires=['pb_ok(self)', '0 <= bit_start and bit_start <= 7',
                            '0 <= byte_idx and byte_idx < len(value_bytes)'],
-                 ensures=['pb_ok(self)', 'pb_nbits(self) == old(pb_nbits(self)) + bit_start + 1',
+                 ensures=['pb_ok(self)', 'self._cur_bit_idx <= 6', 'pb_nbits(self) == old(pb_nbits(self)) + bit_start + 1',
                           f'pb_val(self) == old(pb_val(self)) * 2 ** (bit_start + 1) + {VB} % 2 ** (bit_start + 1)',
-                          'self._bytes == old(self._bytes)'],
+                          'self._bytes is old(self._bytes)'],
                  modifies=MOD, lemmas=[]),
 }
 
 LOOPS = {
     '0': dict(idx='i', modifies=MOD,
-              inv=['pb_ok(self)', '0 <= i and i <= len(value_bytes)', 'self._bytes == old(self._bytes)',
+              inv=['pb_ok(self)', '0 <= i and i <= len(value_bytes)', 'self._bytes is old(self._bytes)',
+                   'implies(i >= 1, self._cur_bit_idx <= 6)',
                    "implies(endian == 'big', pb_nbits(self) == entry(pb_nbits(self)) + ite(i == 0, 0, top_bits(bit_size) + 8 * (i - 1)))",
                    "implies(endian == 'big', pb_val(self) == entry(pb_val(self)) * 2 ** ite(i == 0, 0, top_bits(bit_size) + 8 * (i - 1))"
                    " + be_acc(value % 2 ** (8 * len(value_bytes)), len(value_bytes), top_bits(bit_size), i))",
@@ -171,14 +179,15 @@ LOOPS = {
                    " + field_bits(value, bit_size, endian))",
                    ]),
     '0.0': dict(idx='t', modifies=MOD,
-                inv=['pb_ok(self)', '0 <= t and t <= bit_start + 1', 'self._bytes == old(self._bytes)',
+                inv=['pb_ok(self)', '0 <= t and t <= bit_start + 1', 'self._bytes is old(self._bytes)',
+                     'implies(t >= 1, self._cur_bit_idx <= 6)',
                      'pb_nbits(self) == entry(pb_nbits(self)) + t',
                      f'pb_val(self) == entry(pb_val(self)) * 2 ** t + ({VB} % 2 ** (bit_start + 1)) // 2 ** (bit_start + 1 - t)']),
 }
 
 contract(PB + '.append_bits', props=['C01', 'C12'],
          requires=['pb_ok(self)', '1 <= bit_size', 'bit_size <= 64', "endian == 'big' or endian == 'little'"],
-         raises={'OverflowError': 'not fits_bytes(value, nbytes_for(bit_size))'},
+         raises={'OverflowError': 'not fits_width(value, bit_size)'},
          ensures=APPEND_POST,
          modifies=MOD,
          lemmas=['to_bytes_def', 'bigend_frame'],
